@@ -55,6 +55,11 @@ func (f *frame) loopFrameAssume(li *loopInfo, keys []string, cur *State, reach T
 		}
 		body := Implies(And(pre, Not(Or(cover...))), Eq(Select(Select(h1, ot), jt), Select(Select(h0, ot), jt)))
 		vc.cmd(fmt.Sprintf("(assert (=> %s (forall ((%s Int) (%s Int)) (! %s :pattern ((select (select %s %s) %s))))))", reach.S, o, j, body.S, h1.S, o, j))
+		if len(cover) == 0 {
+			// nothing of this kind is in the frame: pre-existing objects are unchanged as a whole
+			ob := Implies(pre, Eq(Select(h1, ot), Select(h0, ot)))
+			vc.cmd(fmt.Sprintf("(assert (=> %s (forall ((%s Int)) (! %s :pattern ((select %s %s))))))", reach.S, o, ob.S, h1.S, o))
+		}
 	}
 	li.frameKeys = keys
 }
